@@ -171,11 +171,15 @@ def skipWrapperArgs (fwa : WrapOpts) (l : List String) : List String := skipWrap
 
 def matchMsg (m : Match) : String := Py.orElse m.message m.pattern
 
+/-- `_has_inner_quoting`: quote characters or backslashes left after the outer pair was stripped -/
+def hasInnerQuoting (s : String) : Bool := s.toList.any fun c => c == '\'' || c == '"' || c == '\\'
+
 /-- the loop over handler-reported write targets; `none` = every target granted -/
 def checkTargets (w : World) (cwd desc : String) : List String → Option Decision
   | [] => none
   | t :: ts =>
     if w.safeTarget t then checkTargets w cwd desc ts
+    else if hasInnerQuoting t then some ⟨.ask, desc⟩
     else match w.matchRedirect t cwd with
       | some m =>
         match m.decision with
@@ -324,10 +328,12 @@ def stripFd (op : String) : String :=
     let ds := l.takeWhile Char.isDigit
     if ds.isEmpty then op else String.ofList (l.dropWhile Char.isDigit)
 
-/-- decision for one file redirect once the target text is known -/
+/-- decision for one file redirect once the target text is known (a target whose *raw* spelling starts with `&`
+    duplicates a descriptor and never gets here) -/
 def redirectDecision (w : World) (op target cwd : String) : List Decision :=
-  if (w.safeTarget target && target != "-") || Py.startsWith target "&" then []
+  if w.safeTarget target && target != "-" then []
   else if w.redirectOp (stripFd op) then
+    if hasInnerQuoting target then [⟨.ask, "redirect to " ++ target⟩] else
     match w.matchRedirect target cwd with
     | some m =>
       match m.decision with
@@ -513,7 +519,7 @@ def aRedirects : List Redir → String → Bool → List Decision
        match tgt with
        | some t =>
          aWord t cwd remote ++
-           (if remote then [] else redirectDecision w op (wordValue t) cwd)
+           (if remote || Py.startsWith t.value "&" then [] else redirectDecision w op (wordValue t) cwd)
        | none => if remote then [] else redirectDecision w op "" cwd
      | .other _ => [])
     ++ aRedirects rs cwd remote
